@@ -91,9 +91,11 @@ def gen_histories(tier):
         slow += [('tls_foreign_alpn', 'slow12'), ('slow35',), ('slow35', 'connect_close'), ('slow12', 'slow12')]
     seqs += slow
     # descriptor shortages, repeated
-    seqs += [('fdflood6', 'fdflood6'), ('fdflood2',), ('fdflood3', 'fdflood3', 'fdflood3'), ('fdflood6', 'fdflood6')]
+    # (a responder that paces itself after accept() errors must not outlast the 10 s a validating client waits: the long shortages
+    # are there so that any pacing which grows with the number of errors becomes visible)
+    seqs += [('fdflood6', 'fdflood6'), ('fdflood2',), ('fdflood3', 'fdflood3', 'fdflood3'), ('fdflood21',), ('fdflood21', 'fdflood0.5')]
     if tier != 'quick':
-        seqs += [('fdflood6', 'http', 'fdflood6'), ('fdflood10', 'fdflood0.3', 'fdflood5'), ('tls_foreign_alpn', 'fdflood6', 'fdflood1', 'fdflood6')]
+        seqs += [('fdflood45',), ('fdflood6', 'http', 'fdflood6'), ('fdflood10', 'fdflood0.3', 'fdflood5'), ('tls_foreign_alpn', 'fdflood6', 'fdflood1', 'fdflood6')]
     # the extra behaviours alone, twice, and combined with every catalogue entry in both orders
     for e in EXTRA:
         seqs += [(e,), (e, e)] + [(e, c) for c in CATALOGUE] + [(c, e) for c in CATALOGUE]
